@@ -28,7 +28,8 @@ BUILDS = {
     'dbg': ['-O1', '-D_GLIBCXX_ASSERTIONS'],
     'exact': ['-O2', '-D_GLIBCXX_ASSERTIONS'],   # exact-rational monitor: __int128 arithmetic, no sanitizer (UBSan would report nothing the overflow checks do not)
     'tsan': ['-O1', '-g', '-fsanitize=thread', '-pthread'],
-    'jet': ['-O1', '-fno-omit-frame-pointer', '-fsanitize=address,undefined', '-fno-sanitize-recover=all', '-D_GLIBCXX_ASSERTIONS', '-I' + ROOT + '/stubs'],
+    # EIGEN_STACK_ALLOCATION_LIMIT=0: a 22x22 Jacobian of Jet<double,44> (bundle layouts) exceeds Eigen's 128 KB guard for fixed-size objects
+    'jet': ['-O1', '-fno-omit-frame-pointer', '-fsanitize=address,undefined', '-fno-sanitize-recover=all', '-D_GLIBCXX_ASSERTIONS', '-DEIGEN_STACK_ALLOCATION_LIMIT=0', '-I' + ROOT + '/stubs'],
 }
 RUN_ENV = {
     'ASAN_OPTIONS': 'abort_on_error=0:detect_leaks=0:detect_stack_use_after_return=1:exitcode=86',
